@@ -563,7 +563,7 @@ impl Check for C02 {
     }
     fn run_case(&self, ctx: &mut Ctx, phase: usize, idx: u64) {
         let ty = CARRIERS[(idx % 12) as usize];
-        let o = GenOpts { styled_prot: 255, built: false, max_depth: 3 };
+        let o = GenOpts { styled_prot: 255, built: false, max_depth: 3, mixed: false };
         match phase {
             0 => {
                 let v = gen::gen_mval(&mut ctx.rng, ty, &o);
@@ -578,7 +578,7 @@ impl Check for C02 {
             }
             2 => {
                 let mut v = gen::gen_mval(&mut ctx.rng, ty, &o);
-                let h = gen::gen_header(&mut ctx.rng, &GenOpts { styled_prot: 0, built: false, max_depth: 1 }, 1);
+                let h = gen::gen_header(&mut ctx.rng, &GenOpts { styled_prot: 0, built: false, max_depth: 1, mixed: false }, 1);
                 force_same_content(ctx, &mut v, &h);
                 c02_case(ctx, ty, &v);
             }
